@@ -6,30 +6,48 @@ class RecordingImpl(cache.CacheImpl):
     store = {}
     log = []
     pass_context = False
+    partition = False          # True: one store per `region` argument, like Beaker / dogpile
+
+    # like Beaker / dogpile, the backend keeps one store per region argument
+    @staticmethod
+    def _kw(kw):
+        d = dict(kw)
+        c = d.get("context")
+        if c is not None:
+            try:
+                d["__ctx_x"] = c.get("x")
+            except Exception:  # noqa
+                d["__ctx_x"] = "?"
+        return d
 
     def get_or_create(self, key, creation_function, **kw):
         k = (self.cache.id, key)
-        if k in RecordingImpl.store:
-            RecordingImpl.log.append(("hit", k, dict(kw)))
-            return RecordingImpl.store[k]
-        RecordingImpl.log.append(("miss", k, dict(kw)))
+        sk = (self.cache.id, kw.get("region") if self.partition else None, key)
+        if sk in RecordingImpl.store:
+            RecordingImpl.log.append(("hit", k, self._kw(kw)))
+            return RecordingImpl.store[sk]
+        RecordingImpl.log.append(("miss", k, self._kw(kw)))
         v = creation_function()
-        RecordingImpl.store[k] = v
+        RecordingImpl.store[sk] = v
         return v
 
     def set(self, key, value, **kw):
-        RecordingImpl.store[(self.cache.id, key)] = value
+        RecordingImpl.store[(self.cache.id, kw.get("region") if self.partition else None, key)] = value
 
     def get(self, key, **kw):
-        return RecordingImpl.store.get((self.cache.id, key))
+        return RecordingImpl.store.get((self.cache.id, kw.get("region") if self.partition else None, key))
 
     def invalidate(self, key, **kw):
-        RecordingImpl.log.append(("inv", (self.cache.id, key), dict(kw)))
-        RecordingImpl.store.pop((self.cache.id, key), None)
+        RecordingImpl.log.append(("inv", (self.cache.id, key), self._kw(kw)))
+        RecordingImpl.store.pop((self.cache.id, kw.get("region") if self.partition else None, key), None)
 
 
 class RecordingCtxImpl(RecordingImpl):
     pass_context = True
+
+
+class RecordingRegionImpl(RecordingImpl):
+    partition = True
 
 
 def reset():
